@@ -7,7 +7,9 @@ def protoExtractionFailed : Bool := false
 def protoExtractionError : String := ""
 def interrogateProto : Proto := { returnsStatus := true, body := [
   .s (.open 0),
-  .ifFailElse 0 true [.write 0, .write 0, .write 0, .close 0, .setIfFail 0],
+  .s (.write 0),
+  .s (.write 0),
+  .ifFailElse 0 true [.write 0, .close 0, .setIfFail 0],
   .s (.open 1),
   .ifFailElse 1 true [.write 1, .close 1, .setIfFail 1],
   .s (.open 2),
